@@ -349,3 +349,35 @@ def r10_7(ctx):
     from .c03 import r03_3
 
     r03_3(ctx)  # assignment / store / register write / return / jump widths
+
+
+@rule("R10.8", "C10", "temporaries and registers keep their sort: h_tmpN carries sign, width and boolness of the operation's value; register operands get their architectural width", min_instances=45)
+def r10_8(ctx):
+    idx = get_index(ctx.env)
+    # --- the temporary of a value-producing operation is typed like the operation's value (a bool stays a bool: its
+    #     readers decide NON_ZERO / ITE-vs-CAST by the BOOL flag)
+    for name, signed, width, groups in (("int", True, 32, ("PURE",)), ("wide unsigned", False, 64, ("PURE",)), ("narrow", True, 8, ("PURE",)), ("bool", False, 1, ("PURE", "BOOL"))):
+        r = Runner(idx, keep_real=("resolve_hybrid",))
+        def rh_args():
+            seq = EnumV("HybridSeqOrder", "EXEC_THEN_SET_VAL", None)
+            return [AObj("Hybrid", {"value_type": mk_vt("th", signed, width, groups), "seq_order": seq, "references_set": set()}, label="hybrid", opaque=True)]
+        fi, outs = r.run("resolve_hybrid", rh_args, args_list=True)
+        good = [o for o in outs if o.kind != "raise"]
+        ctx.need(good, "resolve_hybrid has no non-raising path")
+        for o in good:
+            tmps = [e[2] for e in o.events if e[0] == "node" and e[1] == "LocalVar"]
+            sig = None
+            if len(tmps) == 1:
+                t = ctor(tmps[0], "value_type")
+                if isinstance(t, AObj) and isinstance(t.fields.get("group"), FlagV):
+                    sig = (t.fields.get("_signed"), t.fields.get("_bit_width"), "BOOL" in t.fields["group"].members)
+            exp = (signed, width, "BOOL" in groups)
+            ctx.check(f"resolve_hybrid temporary type [{name} value]", sig == exp, f"(signed, width, bool) = {exp}", str(sig), fn_where(idx, fi))
+            ret = o.value
+            same = isinstance(ret, AObj) and tmps and ret is tmps[0]
+            ctx.check(f"resolve_hybrid returns that temporary [{name} value]", bool(same), "the LocalVar h_tmpN", lab(ret)[:60], fn_where(idx, fi), nontrivial=False)
+    # --- register operand widths (table shared with C07)
+    from .c07 import r07_1, r07_8
+
+    r07_1(ctx)
+    r07_8(ctx)
